@@ -116,20 +116,25 @@ namespace vf
                     Errs e;
                     check_state(worlds[size_t(id)], e);
                     if (take_asan()) e.add("asan", "AddressSanitizer report while querying the initial state");
-                    if (!e.empty()) report(e, id, -1, "initial state");
+                    if (!e.empty())
+                    {
+                        report(e, id, -1, "initial state");
+                        nodes[size_t(id)].depth = 1 << 30;   // a violating initial state is reported once and never expanded
+                    }
                 }
             }
             for (size_t cur = 0; cur < worlds.size(); ++cur)
             {
                 int depth = nodes[cur].depth;
                 if (depth >= max_depth) { complete = false; continue; }
-                if ((cur & 63) == 0)
-                {
-                    double el = std::chrono::duration<double>(std::chrono::steady_clock::now() - t0).count();
-                    if (el > deadline_s) { complete = false; cap(prop + "/" + inst + ": deadline reached after expanding " + str(cur) + " of " + str(worlds.size()) + " states"); break; }
-                }
+                bool out_of_time = false;
                 for (size_t oi = 0; oi < ops.size(); ++oi)
                 {
+                    if ((oi & 255) == 0)
+                    {
+                        double el = std::chrono::duration<double>(std::chrono::steady_clock::now() - t0).count();
+                        if (el > deadline_s) { out_of_time = true; break; }
+                    }
                     World w = worlds[cur];
                     Errs e;
                     bool ok = ops[oi].f(w, e);
@@ -168,8 +173,15 @@ namespace vf
                         }
                     }
                 }
+                if (out_of_time)
+                {
+                    complete = false;
+                    cap(prop + "/" + inst + ": deadline reached after fully expanding " + str(cur) + " of " + str(worlds.size()) + " known states");
+                    break;
+                }
             }
             // states whose depth was poisoned are not "unexpanded because of the bound"
+            (void)0;
         }
 
         // replay a ';'-separated list of operation names from the first initial world; prints what happens
